@@ -100,7 +100,11 @@ class AbsNode:
         if name == "generated_id":
             return self.sym("generated_id", Bo)
         if name == "prio":
-            raise AttributeError(name)  # abstract nodes carry no configurator tag unless a harness says so
+            # abstract nodes carry no configurator tag unless the harness's family says they may (optional attribute:
+            # presence is the symbol has_prio.F(i), the value prio.F(i))
+            if getattr(self._fam, "optional_prio", False) and self.sym_bool("has_prio"):
+                return self.sym("prio")
+            raise AttributeError(name)
         con = ctx().contracts.get(name)
         if con is not None:
             return lambda *a, **k: con.call(self, *a, **k)
